@@ -198,7 +198,7 @@ package recordio
 //@   exit [C04,C12:header-read-completely-and-parsed] r0 == nil ==> called(io.ReadFull, 0) && callres(io.ReadFull, 0, 1) == nil && callres(io.ReadFull, 0, 0) == 8 &&
 //@        called(readFileHeaderFromBuffer, 0) && callres(readFileHeaderFromBuffer, 0, 1) == nil && r.header == callres(readFileHeaderFromBuffer, 0, 0)
 //@   call 0 of io.ReadFull: assert [C04,C12:reads-eight-bytes-from-the-file] arg0 == r.reader && len(arg1) == 8
-//@   call 0 of readFileHeaderFromBuffer: assert [C04,C12:parses-the-bytes-read] arr(arg0) == arr(bytes) && off(arg0) == off(bytes) && len(arg0) == len(bytes)
+//@   call 0 of readFileHeaderFromBuffer: assert [C04,C12:parses-the-bytes-read] arg0 === callarg(io.ReadFull, 0, 1)
 //@   ensures [starts-behind-the-file-header] r0 == nil ==> r.open && r.currentOffset == 8 && r.header != nil
 //@   ensures [ready-for-records] r0 == nil ==> len(r.recordHeaderCache) >= 36 && r.recordHeaderByteReader != nil && r.bufferPool != nil
 
@@ -208,7 +208,7 @@ package recordio
 //@   exit [C04,C12:header-read-completely-and-parsed] r0 == nil ==> called(ReaderAt.ReadAt, 0) && callres(ReaderAt.ReadAt, 0, 1) == nil && callres(ReaderAt.ReadAt, 0, 0) == 8 &&
 //@        called(readFileHeaderFromBuffer, 0) && callres(readFileHeaderFromBuffer, 0, 1) == nil && r.header == callres(readFileHeaderFromBuffer, 0, 0)
 //@   call 0 of ReaderAt.ReadAt: assert [C04,C12:reads-eight-bytes-at-offset-zero] len(arg0) == 8 && arg1 == 0
-//@   call 0 of readFileHeaderFromBuffer: assert [C04,C12:parses-the-bytes-read] arr(arg0) == arr(buf) && off(arg0) == off(buf) && len(arg0) == len(buf)
+//@   call 0 of readFileHeaderFromBuffer: assert [C04,C12:parses-the-bytes-read] arg0 === callarg(ReaderAt.ReadAt, 0, 0)
 //@   ensures [reopen-rejected] (old(r.open) || old(r.closed)) ==> r0 != nil
 //@   ensures [open-for-reads] r0 == nil ==> r.open && r.header != nil && r.bufferPool != nil
 //@   ensures [failed-open-is-not-open] r0 != nil && !old(r.open) ==> !r.open
